@@ -18,6 +18,9 @@ ALL = [f"C{i:02d}" for i in range(1, 21)]
 
 def run_one(prop: str, tier: str, seed: int, repo_root=None, overlay=None, quiet=False, write=True):
     mod = importlib.import_module(f"hivecheck.props.{prop.lower()}")
+    from . import loader as _loader
+
+    _loader.set_inline_for(prop)
     repo = Repo(repo_root, overlay)
     ctx = Ctx(prop, repo, tier, seed, quiet)
     try:
